@@ -233,7 +233,7 @@ Types(sc, role) == IF role = "p" THEN [k \in 1..sc.np |-> sc.vars[k].t]
 TypeUses(ts) == UNION {BareIdents(ts[i], c.inpkg) \cup {Qual(imp, p) : p \in RefPkgs(ts[i])} : i \in 1..Len(ts)} \ {""}
 
 \* var.go nillable()
-NamedNillable(t) == t.n \in {"I", "LI", "GI", "LGI", "RW", "LG2", "Reader", "Writer", "ReadWriter", "Context", "Stringer", "Locker", "LS"}
+NamedNillable(t) == t.n \in {"I", "LI", "GI", "LGI", "RW", "LG2", "TI", "Reader", "Writer", "ReadWriter", "Context", "Stringer", "Locker", "LS"}
 Nillable(t) == CASE t.k \in {"ptr", "array", "map", "iface", "func", "chan", "slice", "tp"} -> TRUE
                  [] t.k = "basic" -> t.n \in {"error", "any"}
                  [] t.k \in {"named", "inst"} -> NamedNillable(t)
@@ -428,6 +428,7 @@ Emit ==
                                  dm |-> ExpData(MethodsOf(Prog, Prog.target), Prog.decls[Prog.target].tps),
                                  \* C02, several interfaces mocked into one file: method set / type arguments of every declaration
                                  sets |-> [n \in DOMAIN Prog.decls |-> SortByRank(TargetMethodSet(Prog.decls, n))],
+                                 dms |-> [n \in DOMAIN Prog.decls |-> ExpData(MethodsOf(Prog, n), Prog.decls[n].tps)],   \* C14, per interface
                                  alltargs |-> [n \in DOMAIN Prog.decls |-> TargTuples(Prog.decls[n].tps)]])>>)
   /\ (pc = "done") => PrintT(<<"PRED", ToJson(Pred)>>)
 =============================================================================
